@@ -13,7 +13,7 @@ import numpy as np
 import pennylane as qp
 
 from .. import bridge, lib, rel
-from ..codec import OffLattice, decode_gate, encode_op, rec, wire_positions
+from ..codec import ARITY, OffLattice, decode_gate, encode_op, rec, wire_positions
 from ..lib import CheckResult, Violation
 
 M = 4
@@ -108,11 +108,11 @@ def gen_circuits(tier, seed):
     pairs = list(itertools.product(i2, repeat=2))
     if tier == "quick":
         rng.shuffle(pairs)
-        pairs = pairs[:1000]
+        pairs = pairs[:450]
     circs += [(2, list(p)) for p in pairs]
     # (2) seeded random, biased, 3..8 gates on 2..4 wires over the full lattice
     allang = list(range(16))
-    nrand = 1000 if tier == "quick" else 20000
+    nrand = 550 if tier == "quick" else 20000
     inst = {n: rel.instances(ALPHA, n, allang) for n in (2, 3, 4)}
     for _ in range(nrand):
         n = rng.choice([2, 3, 3, 3, 4])
@@ -129,6 +129,29 @@ def gen_circuits(tier, seed):
             for tot in (0, 16, 32):
                 g2 = dict(g, p=[(tot - g["p"][0]) % 32 if tot else -g["p"][0] % 16])
                 circs.append((3, [g, g2, other]))
+    # (4) every pair of placements of the same multi-qubit gate kind on 3 wires (all control/target orderings,
+    #     same and partially overlapping wire sets) between a generic prefix and suffix
+    multi = [a for a in ALPHA if ARITY[a[0]] >= 2]
+    for name, npar in multi:
+        pl = rel.placements(ARITY[name], 3)
+        for w1 in pl:
+            for w2 in pl:
+                if tier == "quick" and rng.random() < 0.5 and set(w1) != set(w2):
+                    continue
+                g1 = rec(name, w1, [5] * npar)
+                g2 = rec(name, w2, [11] * npar)
+                circs.append((3, [rec("RY", [w1[0]], [3]), rec("Hadamard", [w1[-1]]), g1, g2, rec("RX", [w2[-1]], [5])]))
+    # (5) SWAP-heavy circuits (chains of SWAPs sharing wires) with distinguishable single-qubit gates in between
+    sw = {n: rel.instances([("SWAP", 0)], n, [0]) for n in (3, 4)}
+    oneq = {n: rel.instances([("RX", 1), ("RY", 1), ("T", 0), ("Hadamard", 0)], n, [3, 5]) + rel.instances([("CNOT", 0)], n, [0]) for n in (3, 4)}
+    for _ in range(250 if tier == "quick" else 4000):
+        n = rng.choice([3, 3, 4])
+        c = [rng.choice(oneq[n]) for _ in range(n)]
+        for _ in range(rng.randint(2, 4)):
+            c.append(rng.choice(sw[n]))
+            if rng.random() < 0.6:
+                c.append(rng.choice(oneq[n]))
+        circs.append((n, c))
     return circs
 
 
